@@ -268,7 +268,10 @@ def run(only=None):
             text = '(* GENERATED: tools/translate_p.py failed: %r *)\n' % (ex,)
             status[name] = {'status': 'unparsed', 'reason': 'translator error: %r' % (ex,)}
         if not os.path.exists(out) or open(out).read() != text: open(out, 'w').write(text)
-        if status[name]['status'] == 'ok': T.drop_redundant(out, status[name])
+    from concurrent.futures import ThreadPoolExecutor
+    todo = [n for n in status if status[n]['status'] == 'ok']
+    with ThreadPoolExecutor(max_workers=8) as ex:
+        list(ex.map(lambda n: T.drop_redundant(status[n]['file'], status[n]), todo))
     return status
 
 if __name__ == '__main__':
